@@ -348,6 +348,19 @@ fn run_check(id: &str, tier: &str) -> i32 {
             minimised,
             plan: fplan.clone(),
         };
+        // the unminimised plan is kept alongside
+        let orig = ReplayFile {
+            property: id.into(),
+            rule: rule.clone(),
+            detail: f.detail.clone(),
+            facts: f.facts.clone(),
+            history_hash: String::new(),
+            minimised: false,
+            plan: plan.clone(),
+        };
+        let opath = replay_dir.join(format!("{}-{}-{}.orig.json", id, rule.replace('.', "_"), fplan.seed));
+        let _ = std::fs::write(&opath, serde_json::to_vec(&orig).unwrap());
+        println!("  original (run index {}): {} facts: {}", _i, f.detail.chars().take(300).collect::<String>(), serde_json::to_string(&f.facts).unwrap());
         let path = replay_dir.join(format!("{}-{}-{}.json", id, rule.replace('.', "_"), fplan.seed));
         std::fs::write(&path, serde_json::to_vec_pretty(&rf).unwrap()).expect("write replay");
         println!(
